@@ -479,13 +479,85 @@ Fixpoint orc (rs : state) (ops : list op) (os : obs) : bool :=
   | _, _ => false
   end.
 
-Definition spec_ok (i : input) (o : obs) : bool := orc [] (i_ops i) o.
+(* ---------- "a signature whose push reported success is listed" ----------
+   Judged at full strength on the observations: every PushSignature that
+   reported success OWES its manifest (descriptor reported, artifact type
+   notation, annotations reported) to every later successful listing of its
+   subject. [orc] above (the ledger) cannot see a violation of this clause,
+   because the ledger, like the store, keeps the first content per digest.
+
+   KNOWN finding (footprint 1, KNOWN_FINDINGS.txt): when the exact content of
+   the manifest is already in the layout under a media type other than the
+   image manifest type (a plain blob, the legacy artifact manifest type, ...),
+   oci.Store.Push answers ErrAlreadyExists before indexing, PackManifest
+   ignores it, PushSignature reports success and the manifest is never listed.
+   [squatted] recognises exactly that situation from the ledger BEFORE the push
+   and the reported results; with [known = true] such a push owes nothing. *)
+Definition desc_list_eqb := list_eqb desc_eqb.
+Definition mrec_eqb (a b : mrec) : bool :=
+  match m_subject a, m_subject b with
+  | Some x, Some y => desc_eqb x y | None, None => true | _, _ => false end &&
+  desc_eqb (m_config a) (m_config b) && desc_list_eqb (m_layers a) (m_layers b) &&
+  (m_atype a =? m_atype b) && desc_list_eqb (m_blobs a) (m_blobs b) &&
+  desc_list_eqb (m_manifests a) (m_manifests b) && ann_eqb (m_ann a) (m_ann b).
+Definition content_eqb (a b : content) : bool :=
+  (c_sz a =? c_sz b)%Z && Bool.eqb (c_img a) (c_img b) && Bool.eqb (c_art a) (c_art b) &&
+  Bool.eqb (c_idx a) (c_idx b) && mrec_eqb (c_m a) (c_m b).
+
+Definition squatted (rs : state) (p : push) (md : desc) (a : ann) : bool :=
+  match lookup_dg rs (d_dg md) with
+  | Some e => negb (d_mt (e_d e) =? MT_IMAGE) &&
+              content_eqb (e_c e) (man_content (d_sz md) (p_subj p) (blob_desc p) a)
+  | None => false
+  end.
+
+Definition owed := list (desc * item).     (* subject, item owed to its later listings *)
+
+Definition owed_ok (ow : owed) (o : op) (r : ores) : bool :=
+  match o, r with
+  | OpList q, RList e its _ =>
+      if e =? 0
+      then forallb (fun si => negb (desc_eqb (fst si) q) || existsb (item_eqb (snd si)) its) ow
+      else true
+  | _, _ => true
+  end.
+
+Definition owed_adv (known : bool) (rs : state) (ow : owed) (o : op) (r : ores) : owed :=
+  match o, r with
+  | OpPush p, RPush e bd md a =>
+      if (e =? 0) && negb (known && squatted rs p md a)
+      then (p_subj p, I md MT_NOTATION a) :: ow else ow
+  | _, _ => ow
+  end.
+
+Fixpoint orc2 (known : bool) (rs : state) (ow : owed) (ops : list op) (os : obs) : bool :=
+  match ops, os with
+  | [], [] => true
+  | o :: ops', r :: os' =>
+      rcheck rs o r && owed_ok ow o r &&
+      orc2 known (radv rs o r) (owed_adv known rs ow o r) ops' os'
+  | _, _ => false
+  end.
+
+(* the property oracle: ledger checks and the owed listings, no exception *)
+Definition spec_ok (i : input) (o : obs) : bool := orc2 false [] [] (i_ops i) o.
+(* the same, tolerating the known finding only *)
+Definition spec_ok_known (i : input) (o : obs) : bool := orc2 true [] [] (i_ops i) o.
 
 (* ---------- cases ---------- *)
 Record case := mk_case { c_id : N; c_in : input; c_obs : obs }.
+
+(* footprint 1: the oracle is violated ONLY through pushes in the squatted
+   situation (it holds once exactly those owe nothing) and the implementation
+   did what the faithful model of that defect predicts. Any other violation
+   (a pushed signature missing from a listing without the manifest having been
+   there before, a deviation from the model) has footprint 0 and is reported. *)
+Definition fp (c : case) : N :=
+  if wf (c_in c) && obs_eqb (model (c_in c)) (c_obs c) && spec_ok_known (c_in c) (c_obs c)
+  then 1 else 0.
 
 Definition run (cs : list case) : list (N * N * N) :=
   run_cases c_id
     (fun c => wf (c_in c) && obs_eqb (model (c_in c)) (c_obs c))
     (fun c => spec_ok (c_in c) (c_obs c))
-    (fun _ => 0%N) cs.
+    fp cs.
